@@ -184,13 +184,21 @@ func vh_C19_L4_karn() {
 	vassert(measureFrom == f.base+1, "measuring point starts at the first TSN")
 	next := a.myNextTSN
 	ackTwo := vPick(2) == 1
+	viaGap := ackTwo && vPick(2) == 1 // the second chunk is acknowledged by a gap block instead of cumulatively
 	cum := f.base + 1
-	if ackTwo {
+	sack := &chunkSelectiveAck{advertisedReceiverWindowCredit: 1 << 20}
+	if viaGap {
+		// first chunk stays outstanding, second is gap-acked
+		cum = f.base
+		sack.gapAckBlocks = []gapAckBlock{{2, 2}}
+		f.chunks[1].retransmit = false // it has been re-sent, the mark is cleared
+	} else if ackTwo {
 		cum++
 	}
-	vassert(vDeliver(a, &chunkSelectiveAck{cumulativeTSNAck: cum, advertisedReceiverWindowCredit: 1 << 20}) == nil, "SACK ok")
+	sack.cumulativeTSNAck = cum
+	vassert(vDeliver(a, sack) == nil, "SACK ok")
 	sampled := a.minTSN2MeasureRTT == next
-	eligible := n0 == 1 || (ackTwo && n1 == 1)
+	eligible := (!viaGap && n0 == 1) || (ackTwo && n1 == 1)
 	vassert(sampled == eligible, "an RTT sample is taken iff a newly acknowledged chunk was transmitted exactly once")
 	if !eligible {
 		vassert(a.minTSN2MeasureRTT == measureFrom, "retransmitted chunks never move the measuring point")
